@@ -63,6 +63,13 @@ class Ctx:
             self._kinds = Kinds(self)
         return self._kinds
 
+    def dims(self):
+        """role inference for DAQmx buffer quantities (rows / width / bytes), used by the C11 rules"""
+        if getattr(self, "_dims", None) is None:
+            from .kinds import Dims
+            self._dims = Dims(self)
+        return self._dims
+
     def call_resolution_stats(self):
         if self._res_stats is None:
             try:
